@@ -234,7 +234,11 @@ class TranslatorSMT2(Translator):
                 else:
                     raise NotImplementedError("Unsupported OP yet: %s" % expr.op)
         elif expr.op == 'parity':
-            arg = bv_extract(7, 0, res)
+            arg_size = expr.args[0].size
+            if arg_size < 8:
+                arg = bv_concat(bit_vec_val(0, 8 - arg_size), res)
+            else:
+                arg = bv_extract(7, 0, res)
             res = bit_vec_val(1, 1)
             for i in range(8):
                 res = bvxor(res, bv_extract(i, i, arg))
